@@ -1,159 +1,10 @@
 package nbt
 
 import (
-	"math"
-
 	vp "github.com/Tnze/go-mc/internal/zzvp"
 )
 
 // zz_verif_c01r: typed layer through the engine's reflect shim.
-
-
-type vpDoc struct {
-	A    int32   `nbt:"a"`
-	B    int64   `nbt:"b"`
-	S    string  `nbt:"s"`
-	I    []int32 `nbt:"i"`
-	L    []int64 `nbt:"l"`
-	Y    []byte  `nbt:"y"`
-	In   vpInner `nbt:"in"`
-	F    float32 `nbt:"f"`
-	D    float64 `nbt:"d"`
-	Bo   bool    `nbt:"bo"`
-	Sh   int16   `nbt:"sh"`
-	By   int8    `nbt:"by"`
-	Skip int32   `nbt:"-"`
-	Om   string  `nbt:"om,omitempty"`
-	Key  int8    `nbt:",omitempty" nbtkey:"k,1"`
-	Li   []int32 `nbt:"li,list"`
-	vpEmb
-	P *vpInner `nbt:"p"`
-}
-
-func vpInnerDoc(v vpInner) []byte {
-	var d []byte
-	d = append(d, vpTagHdr(TagShort, "x")...)
-	d = append(d, vpBE(uint64(uint16(v.X)), 2)...)
-	d = append(d, vpTagHdr(TagString, "s")...)
-	d = append(d, vpStr(v.S)...)
-	return append(d, 0)
-}
-
-// vpRefDoc is the documented mapping written out by hand for vpDoc: the
-// reference document for a value (fields in declaration order).
-func vpRefDoc(v vpDoc) []byte {
-	var d []byte
-	d = append(d, vpTagHdr(TagInt, "a")...)
-	d = append(d, vpBE(uint64(uint32(v.A)), 4)...)
-	d = append(d, vpTagHdr(TagLong, "b")...)
-	d = append(d, vpBE(uint64(v.B), 8)...)
-	d = append(d, vpTagHdr(TagString, "s")...)
-	d = append(d, vpStr(v.S)...)
-	d = append(d, vpTagHdr(TagIntArray, "i")...)
-	d = append(d, vpBE(uint64(len(v.I)), 4)...)
-	for _, x := range v.I {
-		d = append(d, vpBE(uint64(uint32(x)), 4)...)
-	}
-	d = append(d, vpTagHdr(TagLongArray, "l")...)
-	d = append(d, vpBE(uint64(len(v.L)), 4)...)
-	for _, x := range v.L {
-		d = append(d, vpBE(uint64(x), 8)...)
-	}
-	d = append(d, vpTagHdr(TagByteArray, "y")...)
-	d = append(d, vpBE(uint64(len(v.Y)), 4)...)
-	d = append(d, v.Y...)
-	d = append(d, vpTagHdr(TagCompound, "in")...)
-	d = append(d, vpInnerDoc(v.In)...)
-	d = append(d, vpTagHdr(TagFloat, "f")...)
-	d = append(d, vpBE(uint64(math.Float32bits(v.F)), 4)...)
-	d = append(d, vpTagHdr(TagDouble, "d")...)
-	d = append(d, vpBE(math.Float64bits(v.D), 8)...)
-	d = append(d, vpTagHdr(TagByte, "bo")...)
-	if v.Bo {
-		d = append(d, 1)
-	} else {
-		d = append(d, 0)
-	}
-	d = append(d, vpTagHdr(TagShort, "sh")...)
-	d = append(d, vpBE(uint64(uint16(v.Sh)), 2)...)
-	d = append(d, vpTagHdr(TagByte, "by")...)
-	d = append(d, byte(v.By))
-	if v.Om != "" {
-		d = append(d, vpTagHdr(TagString, "om")...)
-		d = append(d, vpStr(v.Om)...)
-	}
-	if v.Key != 0 {
-		d = append(d, vpTagHdr(TagByte, "k,1")...)
-		d = append(d, byte(v.Key))
-	}
-	d = append(d, vpTagHdr(TagList, "li")...)
-	d = append(d, TagInt)
-	d = append(d, vpBE(uint64(len(v.Li)), 4)...)
-	for _, x := range v.Li {
-		d = append(d, vpBE(uint64(uint32(x)), 4)...)
-	}
-	d = append(d, vpTagHdr(TagShort, "e")...)
-	d = append(d, vpBE(uint64(uint16(v.E)), 2)...)
-	if v.P != nil {
-		d = append(d, vpTagHdr(TagCompound, "p")...)
-		d = append(d, vpInnerDoc(*v.P)...)
-	}
-	return append(d, 0)
-}
-
-func vpMkDoc() vpDoc {
-	var v vpDoc
-	// one shape selector (empty / short / longer containers) instead of a
-	// product of independent length choices; all contents arbitrary
-	k := vp.Choice(3)
-	v.A, v.B = vp.Int32(), vp.Int64()
-	v.S = string(vp.Bytes(k))
-	v.I = []int32{vp.Int32(), vp.Int32()}[:k]
-	v.L = []int64{vp.Int64(), vp.Int64()}[:k]
-	v.Y = vp.Bytes(k)
-	v.In = vpInner{X: vp.Int16(), S: string(vp.Bytes(k / 2))}
-	fb := vp.Uint32()
-	// signalling NaNs are excluded: float32 -> float64 -> float32 through
-	// reflect.Value.Float quiets them on every platform (observation, DESIGN 11)
-	vp.Assume(!(fb&0x7F800000 == 0x7F800000 && fb&0x007FFFFF != 0 && fb&0x00400000 == 0))
-	v.F = math.Float32frombits(fb)
-	v.D = math.Float64frombits(vp.Uint64())
-	v.Bo = vp.Bool()
-	v.Sh, v.By = vp.Int16(), vp.Int8()
-	v.Skip = vp.Int32()
-	if k == 1 {
-		v.Om = "x"
-	}
-	v.Key = vp.Int8()
-	v.Li = []int32{vp.Int32(), vp.Int32()}[:k]
-	v.E = vp.Int16()
-	v.P = &vpInner{X: vp.Int16()}
-	return v
-}
-
-func vpSameDoc(a, b vpDoc, label string) {
-	vp.Assert(a.A == b.A && a.B == b.B && a.S == b.S, label)
-	vp.Assert(len(a.I) == len(b.I) && len(a.L) == len(b.L) && len(a.Y) == len(b.Y) && len(a.Li) == len(b.Li), label)
-	for i := range a.I {
-		vp.Assert(a.I[i] == b.I[i], label)
-	}
-	for i := range a.L {
-		vp.Assert(a.L[i] == b.L[i], label)
-	}
-	for i := range a.Y {
-		vp.Assert(a.Y[i] == b.Y[i], label)
-	}
-	for i := range a.Li {
-		vp.Assert(a.Li[i] == b.Li[i], label)
-	}
-	vp.Assert(a.In == b.In, label)
-	vp.Assert(math.Float32bits(a.F) == math.Float32bits(b.F) && math.Float64bits(a.D) == math.Float64bits(b.D), label)
-	vp.Assert(a.Bo == b.Bo && a.Sh == b.Sh && a.By == b.By && a.Om == b.Om && a.Key == b.Key && a.E == b.E, label)
-	vp.Assert((a.P == nil) == (b.P == nil), label)
-	if a.P != nil && b.P != nil {
-		vp.Assert(*a.P == *b.P, label)
-	}
-}
 
 // decoding the reference document of a value yields that value, returns the
 // root name and leaves what follows unread; file and network format; an
@@ -286,7 +137,6 @@ func VP_C01_typed_any() {
 	vp.Assert(len(m) == 5, "exactly the document's keys")
 	vp.Cover("end")
 }
-
 
 // int arrays decode into slices and arrays of int and int32, signed, in order.
 func VP_C01_typed_intarray() {
